@@ -499,6 +499,20 @@ def add_stream(db: DocB, chain: Sequence[str], stages: List[Stage], data: bytes,
                         after.append((pn, ser(p)))
                         lst.append(Ref(pn))
                 pval = lst
+            elif form == "indirect-values":
+                # every entry of every parameter dictionary (Predictor, Colors, Columns, BitsPerComponent, EarlyChange) is 'N 0 R'
+                conv: List[Any] = []
+                for p in parms:
+                    if p is None:
+                        conv.append(None)
+                        continue
+                    d2: Dict[str, Any] = {}
+                    for kk, vv in p.items():
+                        vn = db.reserve()
+                        (before if len(d2) % 2 == 0 else after).append((vn, ser(vv)))
+                        d2[kk] = Ref(vn)
+                    conv.append(d2)
+                pval = conv[0] if len(names) == 1 else conv
             else:
                 raise KeyError(form)
         else:
@@ -700,7 +714,7 @@ META = {
         "each Flate/LZW position, read through PDFDocument.getobj(n).get_data(); container: all choice vectors with <= container_dev "
         "deviations over 9 container choice points (separator before 'stream', EOL after it (LF/CRLF), EOL before 'endstream' "
         "(LF/CRLF/CR/none), Length direct/indirect before/after, Filter name/array/indirect forms, DecodeParms dict/array/null/indirect "
-        "forms, names, key order, separator before endobj) for 9 chains x 8 delimiter-hostile payloads, each file read with BUFSIZ 4096, 7 "
+        "forms incl. every parameter value (Predictor, Colors, Columns, BitsPerComponent, EarlyChange) as an indirect object, names, key order, separator before endobj) for 9 chains x 8 delimiter-hostile payloads, each file read with BUFSIZ 4096, 7 "
         "(splits 'stream' CR|LF) and 1; paeth: all (left, above, upper-left) triples over 8 boundary values, 1 and 2 colours; png: 42 geometries (colours "
         "1,3,4 x columns 1,2,3,5,8,9,16 x bits 8,1) plus pixel sizes that are not 1, 3 or 4 whole bytes (quick: 1-bit colours 2,9,12,17 x columns "
         "1,3,8 and 8-bit colours 2; thorough: 1-bit colours 2..25 incl. 5,7,8,10,15,16,23,24,25 x columns 1,2,3,5,8,9 and 8-bit colours 2,5) x all 155 assignments of row filter types 0-4 to <=3 rows, directly and through a "
@@ -994,7 +1008,7 @@ def container_program(x: Chooser, nfilters: int, need_parms: bool) -> Dict[str, 
             forms = ["plain", "indirect", "indirect-array", "array-of-indirect"]
         pick("filter", [(k, k) for k in forms])
         if need_parms:
-            pf = ["plain", "array", "indirect", "indirect-array", "array-of-indirect"]
+            pf = ["plain", "array", "indirect", "indirect-array", "array-of-indirect", "indirect-values"]
         else:
             pf = ["plain", "array", "indirect"]
         pick("parms", [(k, k) for k in pf])
